@@ -6,7 +6,7 @@
 // assumption that states a checkable fact is transcribed here into a tiny executable function
 // (NOT a call of the function under test) and compared with the REAL function on enumerated
 // small inputs (incl. multi-byte, empty, CR/LF). A deviation is a FALSE ASSUMPTION.
-// units: T.strings T.lines T.split T.utf8 T.sort T.option T.merge T.unquote T.globset T.paths T.regex
+// units: T.strings T.lines T.split T.utf8 T.sort T.option T.merge T.unquote T.globset T.paths T.regex T.unidiff
 // This text is appended verbatim to a scratch copy of src/lib.rs.
 //
 // Unlike the cex_* harnesses, a topic runs ALL its checks and then prints ONE summary line:
@@ -134,28 +134,16 @@ mod verif_trust {
             }
             t.check("verif_chars_count", "r == s@.len()", json!({"s": s}), json!(chars(s).len()), json!(s.chars().count()));
         }
-        // the trim family: strings.rs gives trim, trim_start and trim_ascii the SAME front offset `trim_lead(s@)`
+        // the trim family: trim, trim_start and trim_ascii each have their OWN uninterpreted front offset
+        // (trim_lead / trim_start_lead / trim_ascii_lead). An earlier prelude gave all three `trim_lead`, which this
+        // harness refuted (" ": trim at offset 0, trim_start / trim_ascii at offset 1); what remains checkable
+        // is the bound of each and the fixed offset 0 of trim_end.
         let ws_pool = strings(&['a', ' ', '\t', '\n', '\u{a0}', '\u{e9}'], 4);
         for s in &ws_pool {
             let (tr, ts, te, ta) = (s.trim(), s.trim_start(), s.trim_end(), s.trim_ascii());
-            let lead = offset_in(tr, s);
-            t.check(
-                "str::trim_start (strings.rs)",
-                "str::trim ensures str_offset_in(r, s) == trim_lead(s@) AND str::trim_start ensures str_offset_in(r, s) == trim_lead(s@): the two offsets are the same function of s",
-                json!({"s": s}),
-                json!({"offset_of_trim_start": lead}),
-                json!({"offset_of_trim_start": offset_in(ts, s)}),
-            );
-            t.check(
-                "str::trim_ascii (strings.rs)",
-                "str::trim ensures str_offset_in(r, s) == trim_lead(s@) AND str::trim_ascii ensures str_offset_in(r, s) == trim_lead(s@)",
-                json!({"s": s}),
-                json!({"offset_of_trim_ascii": lead}),
-                json!({"offset_of_trim_ascii": offset_in(ta, s)}),
-            );
             t.check("str::trim_end (strings.rs)", "str_offset_in(r, s) == 0, blen(r@) <= blen(s@)", json!({"s": s}), json!([0, true]), json!([offset_in(te, s), te.len() <= s.len()]));
             for (name, r) in [("str::trim", tr), ("str::trim_start", ts), ("str::trim_ascii", ta)] {
-                t.check(&format!("{name} (strings.rs) bound"), "trim_lead(s@) + blen(r@) <= blen(s@)", json!({"s": s}), json!(true), json!(offset_in(r, s) + r.len() <= s.len()));
+                t.check(&format!("{name} (strings.rs) bound"), "<its lead>(s@) + blen(r@) <= blen(s@)", json!({"s": s}), json!(true), json!(offset_in(r, s) + r.len() <= s.len()));
             }
         }
         // lines shims
@@ -998,5 +986,186 @@ mod verif_trust {
             }
         }
         t.finish("real regex crate: 7 patterns x all strings of length <=4 over {a,x,y,U+00E9,space,7}: captures is Some iff is_match; every participating group's range / start / end / len / is_empty / as_str agree");
+    }
+
+    // =========================================================================================
+    // T.unidiff  (diff_unidiff.rs, diff_lines_spec.rs: what is assumed about unidiff-parsed GIT diffs)
+    // =========================================================================================
+
+    #[derive(PartialEq, Clone, Copy, Debug)]
+    enum Kind {
+        Ctx,
+        Add,
+        Rem,
+        Other,
+    }
+
+    /// kind(l): by `line_type`, in the order the code asks
+    fn kind(l: &unidiff::Line) -> Kind {
+        if l.line_type == "+" { Kind::Add } else if l.line_type == "-" { Kind::Rem } else if l.line_type == " " { Kind::Ctx } else { Kind::Other }
+    }
+
+    fn src_first(h: &unidiff::Hunk) -> i64 {
+        if h.source_length == 0 { h.source_start as i64 + 1 } else { h.source_start as i64 }
+    }
+
+    fn tgt_first(h: &unidiff::Hunk) -> i64 {
+        if h.target_length == 0 { h.target_start as i64 + 1 } else { h.target_start as i64 }
+    }
+
+    fn cs(h: &unidiff::Hunk, k: usize) -> i64 {
+        if k == 0 { src_first(h) } else { cs(h, k - 1) + if matches!(kind(&h.lines()[k - 1]), Kind::Ctx | Kind::Rem) { 1 } else { 0 } }
+    }
+
+    fn ct(h: &unidiff::Hunk, k: usize) -> i64 {
+        if k == 0 { tgt_first(h) } else { ct(h, k - 1) + if matches!(kind(&h.lines()[k - 1]), Kind::Ctx | Kind::Add) { 1 } else { 0 } }
+    }
+
+    /// line_wf(h, k), returned as the list of violated clauses
+    fn line_wf_violations(h: &unidiff::Hunk, k: usize) -> Vec<&'static str> {
+        let ls = h.lines();
+        let mut v = Vec::new();
+        let kd = kind(&ls[k]);
+        if kd == Kind::Other {
+            v.push("kind(ls[k]) != Kind::Other");
+        }
+        if (kd == Kind::Add || kd == Kind::Ctx) && ls[k].target_line_no.map(|n| n as i64) != Some(ct(h, k)) {
+            v.push("Add/Ctx ==> target_line_no == Some(ct(h, k))");
+        }
+        if (kd == Kind::Rem || kd == Kind::Ctx) && ls[k].source_line_no.map(|n| n as i64) != Some(cs(h, k)) {
+            v.push("Rem/Ctx ==> source_line_no == Some(cs(h, k))");
+        }
+        if k > 0 && kd == Kind::Rem && kind(&ls[k - 1]) == Kind::Add {
+            v.push("k > 0 && Rem ==> kind(ls[k - 1]) != Add");
+        }
+        v
+    }
+
+    fn file_wf_violations(f: &unidiff::PatchedFile) -> Vec<String> {
+        let mut v = Vec::new();
+        let hs = f.hunks();
+        for (hi, h) in hs.iter().enumerate() {
+            let n = h.lines().len();
+            for k in 0..n {
+                for viol in line_wf_violations(h, k) {
+                    v.push(format!("hunk {hi} line {k}: line_wf: {viol}"));
+                }
+                // file_numbered / line_numbered
+                let l = &h.lines()[k];
+                if (kind(l) == Kind::Add && l.target_line_no.is_none()) || (kind(l) == Kind::Rem && l.source_line_no.is_none()) {
+                    v.push(format!("hunk {hi} line {k}: line_numbered"));
+                }
+                // X.is_added / is_removed / is_context
+                if l.is_added() != (l.line_type == "+") || l.is_removed() != (l.line_type == "-") || l.is_context() != (l.line_type == " ") {
+                    v.push(format!("hunk {hi} line {k}: Line::is_added/is_removed/is_context"));
+                }
+            }
+            if cs(h, n) != src_first(h) + h.source_length as i64 {
+                v.push(format!("hunk {hi}: hunk_wf: cs(h, len) == src_first(h) + h.source_length"));
+            }
+            if ct(h, n) != tgt_first(h) + h.target_length as i64 {
+                v.push(format!("hunk {hi}: hunk_wf: ct(h, len) == tgt_first(h) + h.target_length"));
+            }
+            if hi + 1 < hs.len() && !(tgt_first(&hs[hi + 1]) > ct(h, n)) {
+                v.push(format!("hunk {hi}: hunk_gap: tgt_first(next) > ct(h, len)"));
+            }
+        }
+        // X.is_removed_file == removed_file
+        let removed = hs.len() == 1 && hs[0].target_start == 0 && hs[0].target_length == 0;
+        if f.is_removed_file() != removed {
+            v.push("is_removed_file == removed_file".to_string());
+        }
+        v
+    }
+
+    #[test]
+    fn cex_T_unidiff() {
+        use std::str::FromStr;
+        let mut t = Topic::new("T.unidiff");
+        let git_ok = std::process::Command::new("git").arg("--version").output().map(|o| o.status.success()).unwrap_or(false);
+        if !git_ok {
+            t.finish("git is not available: nothing was run");
+            return;
+        }
+        let tmp = tempfile::tempdir().unwrap();
+        let (old_p, new_p) = (tmp.path().join("old.txt"), tmp.path().join("new.txt"));
+        let mut run = |t: &mut Topic, old: &str, new: &str, context: usize, spec: &str| {
+            std::fs::write(&old_p, old).unwrap();
+            std::fs::write(&new_p, new).unwrap();
+            let out = std::process::Command::new("git")
+                .args(["diff", "--no-index", "--no-color", &format!("-U{context}"), "old.txt", "new.txt"])
+                .current_dir(tmp.path())
+                .env("GIT_CONFIG_GLOBAL", "/dev/null")
+                .env("GIT_CONFIG_SYSTEM", "/dev/null")
+                .output()
+                .unwrap();
+            let diff = String::from_utf8_lossy(&out.stdout).to_string();
+            if diff.is_empty() {
+                return;
+            }
+            let input = json!({"old_file_text": old, "new_file_text": new, "git_diff": diff, "context_lines": context});
+            match unidiff::PatchSet::from_str(&diff) {
+                Err(e) => t.check(spec, "a git diff parses", input, json!("parsed"), json!(e.to_string())),
+                Ok(ps) => {
+                    let violations: Vec<String> = ps.files().iter().flat_map(file_wf_violations).collect();
+                    t.check(
+                        spec,
+                        "file_numbered(f) && file_wf(f): every +/-/context line is numbered by the running cursors cs/ct (zero-length side names the line before), no line of another kind, removed lines precede added lines in a run, header lengths = line counts, at least one unchanged line between hunks",
+                        input,
+                        json!([] as [String; 0]),
+                        json!(violations),
+                    );
+                }
+            }
+        };
+        // every edit script: delete any subset of the old lines, insert 0..=1 lines into any gap
+        for n in 0..=4usize {
+            for del_mask in 0..(1usize << n) {
+                for ins_mask in 0..(1usize << (n + 1)) {
+                    let mut old = String::new();
+                    let mut new = String::new();
+                    for g in 0..=n {
+                        if ins_mask & (1 << g) != 0 {
+                            new.push_str(&format!("new{g}\n"));
+                        }
+                        if g < n {
+                            old.push_str(&format!("line{g}\n"));
+                            if del_mask & (1 << g) == 0 {
+                                new.push_str(&format!("line{g}\n"));
+                            }
+                        }
+                    }
+                    for context in [0usize, 1, 3] {
+                        if n == 4 && context == 3 {
+                            continue;
+                        }
+                        run(&mut t, &old, &new, context, "file_wf / file_numbered on `git diff` (files end with a newline)");
+                    }
+                }
+            }
+        }
+        // larger files: several hunks
+        let old: String = (0..12).map(|i| format!("line{i}\n")).collect();
+        for (dels, inss) in [(vec![0usize], vec![11usize]), (vec![2, 3, 9], vec![6]), (vec![5], vec![5]), (vec![0, 1, 2], vec![]), (vec![], vec![0, 4, 8, 12]), (vec![11], vec![0])] {
+            let mut new = String::new();
+            for g in 0..=12usize {
+                if inss.contains(&g) {
+                    new.push_str(&format!("new{g}\n"));
+                }
+                if g < 12 && !dels.contains(&g) {
+                    new.push_str(&format!("line{g}\n"));
+                }
+            }
+            for context in [0usize, 1, 2, 3] {
+                run(&mut t, &old, &new, context, "file_wf / file_numbered on `git diff` (files end with a newline)");
+            }
+        }
+        // files WITHOUT a final newline: git prints `\ No newline at end of file`
+        for (old, new) in [("a\nb", "a\nc"), ("a\nb\n", "a\nb"), ("a\nb", "a\nb\n"), ("a\nb", "a\nb\nc"), ("x", "x\ny\n")] {
+            for context in [0usize, 3] {
+                run(&mut t, old, new, context, "file_wf on `git diff` when a file has NO final newline");
+            }
+        }
+        t.finish("REAL `git diff --no-index -U0/-U1/-U3` of every edit script (delete any subset, insert 0..=1 line per gap) on files of 0..=4 lines, 6 multi-hunk edits of a 12-line file at -U0..-U3, 5 pairs of files without a final newline; parsed with the real unidiff crate; line_wf / hunk_wf / hunk_gap / file_numbered / removed_file transcribed from prelude/diff_lines_spec.rs and diff_unidiff.rs");
     }
 }
